@@ -40,19 +40,21 @@ LEVEL_TEXT = (
     "Lean theorems for ALL label lists (cycles with any matching/marked/paused/DELETED inputs and any observation of the task, "
     "daemon-killer stages, the instance ending at any moment, any time steps, any backoff/timeout): at_most_one + "
     "spawn_only_when_none, started_on_match, self_exit_is_remembered + no_restart_after_self_exit, staged + staged_monotone, "
-    "stop_reasons. 'Stopping never stalls' is a theorem about a micro-step model of _timer: `progress` for the variant with the "
-    "loop guard, `progress_partial` with the exact guard + the negation `idle_only_spins(+_witness)` for the tree as it is "
-    "(finding F1, reproduced through the pool on every run). The clause 'asked to stop when the object disappears' is false "
-    "for DELETED events without deletionTimestamp: negation proved (gone_unmarked_not_stopped, orphan_never_stopped, "
-    "gone_unmarked_witness) and reproduced (finding F10). 'Never crashes' is false for the daemon killer's loop over the live "
-    "running_daemons dict: killer_iteration_raises(+_witness), reproduced (finding F11). Runtime residue the model cannot exhibit: real threads of sync "
+    "stop_reasons. 'Stopping never stalls' is the theorem `progress` about a micro-step model of _timer for the tree as it is "
+    "(after-run idle loop guarded by the stopper, tied to the AST; incl. the non-suspending run of a series that failed for good); "
+    "`idle_only_spins(+_witness)` is kept as the historical negation for the code before 6ccf081 (F1, fixed; corpus regression). "
+    "'Never crashes': `killer_sweep_visits_all` for the daemon killer's snapshot iteration (tied to the AST; F11 fixed by 06bf1c1; "
+    "corpus regressions). The clause 'asked to stop when the object disappears' is false for DELETED events without "
+    "deletionTimestamp: negation proved (gone_unmarked_not_stopped, orphan_never_stopped, gone_unmarked_witness) and reproduced "
+    "(finding F10, open). Runtime residue the model cannot exhibit: real threads of sync "
     "daemons, CPython's scheduling of same-instant callbacks.")
 THEOREMS = [("Kopf.Props.C09", "Kopf.C09." + n) for n in [
     "at_most_one", "spawn_only_when_none", "started_on_match", "self_exit_is_remembered", "no_restart_after_self_exit",
     "staged", "staged_monotone", "stop_reasons", "exit_reaches_known", "gone_unmarked_not_stopped", "orphan_never_stopped",
-    "gone_unmarked_witness", "killer_iteration_raises", "iteration_safe_when_stable", "killer_iteration_witness",
-    "progress", "progress_partial", "idle_only_spins", "idle_only_spins_witness"]]
-TIE_THEOREMS = [("Kopf.Tie.C09", "Kopf.C09.Tie." + n) for n in ["stage_eq", "killer_phases_eq", "timers_force_none"]]
+    "gone_unmarked_witness", "killer_sweep_visits_all", "old_killer_iteration_witness",
+    "progress", "idle_only_spins", "idle_only_spins_witness"]]
+TIE_THEOREMS = [("Kopf.Tie.C09", "Kopf.C09.Tie." + n) for n in ["stage_eq", "killer_phases_eq", "timers_force_none",
+                                                                         "timer_loop_guarded", "killer_iterates_snapshots"]]
 RULE = ("seeded whole-operator histories: 1-2 objects, 1-3 daemons/timers (modes obey/cancel/ignore/exit; cancellation_backoff/"
         "timeout in {None,0,small,large}; timers with interval/idle/both/neither, sharp, initial_delay), optional label filter and "
         "change handler, timeline of label toggles, spec edits, graceful deletion, deletion before the finalizer lands, forced "
@@ -67,7 +69,8 @@ ASSUMPTIONS = ["settings.background.instant_exit_timeout is None (the default): 
                "CPython >= 3.12 semantics of asyncio.wait_for (an already-set event does not suspend): on 3.10/3.11 the F1 loop "
                "burns CPU but yields to the loop",
                "no event for a uid follows its DELETED event (Kubernetes API guarantee)",
-               "the handler call + patch round-trip of a timer run suspends at least once; timers have idle > 0"]
+               "the handler call + patch round-trip of a timer run suspends at least once (except for a series that has failed "
+               "for good, modelled as not suspending); timers have idle > 0 and interval > 0"]
 
 F1_SIG = {"site": "daemons._timer", "shape": "idle-only timer spins without suspending after its stopper is set"}
 F11_SIG = {"site": "daemons.daemon_killer",
@@ -1330,10 +1333,12 @@ def extract(ctx: Ctx) -> None:
             raise ExtractError("stop_daemon: a phase sets no reason")
         bb = lambda x: "true" if x else "false"  # noqa: E731
         phases.append(f"{{ needsBackoff := {bb(need_b)}, needsTimeout := {bb(need_t)}, set := {setr}, cancel := {bb(cancel)}, wait := {wait} }}")
-    # ---- daemon_killer: does it iterate the live dict across awaits? (informative, finding F11) ------------------------
+    # ---- daemon_killer: every loop that awaits in its body iterates a snapshot `list(...)` ---------------------------
     fk = pyextract.find_def(tree, "daemon_killer")
-    live_loops = [n for n in ast.walk(fk) if isinstance(n, ast.For) and pyextract.norm(n.iter) == "memory.running_daemons.values()"
-                  and any(isinstance(x, ast.Await) for x in ast.walk(n))]
+    await_loops = [n for n in ast.walk(fk) if isinstance(n, ast.For) and any(isinstance(x, ast.Await) for x in ast.walk(n))]
+    iters = sorted(pyextract.norm(n.iter) for n in await_loops)
+    snapshots = bool(await_loops) and all(i in ("list(memories.iter_all_daemon_memories())", "list(memory.running_daemons.values())")
+                                          for i in iters) and "list(memory.running_daemons.values())" in iters
     # ---- _timer: is the after-run idle loop guarded by the stopper? -------------------------------------------------
     guarded = timer_loop_guarded(tree)
     out = pyextract.HEADER.format(src="kopf/_core/engines/daemons.py")
@@ -1345,8 +1350,8 @@ def extract(ctx: Ctx) -> None:
     out += f"/-- both functions set backoff = timeout = None for timers -/\ndef timersForceNone : Bool := {'true' if timers_none else 'false'}\n\n"
     out += ("/-- `while memory.idle_reset_time <= started [and not stopper.is_set()]` in `_timer` (informative: the theorems cover both) -/\n"
             f"def timerIdleLoopGuarded : Bool := {'true' if guarded else 'false'}\n\n")
-    out += ("/-- `for daemon in memory.running_daemons.values(): await ...` in `daemon_killer` (informative, finding F11) -/\n"
-            f"def killerIteratesLiveDict : Bool := {'true' if live_loops else 'false'}\n\n")
+    out += ("/-- every awaiting loop of `daemon_killer` iterates `list(...)` snapshots; found: " + "; ".join(iters).replace("-/", "") + " -/\n"
+            f"def killerIteratesSnapshots : Bool := {'true' if snapshots else 'false'}\n\n")
     out += "end Kopf.C09.Extracted\n"
     leanio.write_generated("Kopf/Extracted/C09.lean", out)
 
@@ -1499,7 +1504,7 @@ def run(ctx: Ctx) -> None:
         stalled = bool(res.get("stall")) and classify_stall(res)[1] == F1_SIG
         req = ["C09.timer", {"cfg": {"initialDelay": None, "idle": 64, "interval": None, "sharp": False, "guarded": guarded},
                              "env": {"now": 256, "stop": True, "idleReset": 64},
-                             "loc": {"pc": "idleLoop", "started": 129, "done": True, "errDelay": 0}, "k": 64}]
+                             "loc": {"pc": "idleLoop", "started": 129, "done": True, "failed": False, "errDelay": 0}, "k": 64}]
         try:
             out = ctx.driver.ask([req, ["C09.variant"]])
             ctx.compare("F1 witness: the real run stalls in the idle loop <=> the micro-step model spins", stalled,
